@@ -155,6 +155,34 @@ def entry(ctx, kind="euler"):
     ctx.prove("time info recorded for the model", ctx.all([ctx.eq(m.initialTime, tcur), ctx.eq(m.finalTime, tcur + sim), ctx.eq(m.deltaTime, sim)]))
 
 
+def entry_twice(ctx, kind="euler"):
+    """GenericModel.solve called twice on one model with different step fractions: each call honours ITS OWN minDtFrac / maxDtFrac
+    (largest step <= maxDtFrac*simTime, and a model proposing nothing is advanced by minDtFrac*simTime per step)"""
+    sims = [ctx.real("simTime%d" % k, (0.5, 2.0)) for k in range(2)]
+    fr = [ctx.real("maxDtFrac%d" % k, (0.3, 0.9)) for k in range(2)]
+    for k in range(2):
+        ctx.assume(sims[k] > 0); ctx.assume(fr[k] >= 0.3); ctx.assume(fr[k] <= 1)
+    x0 = ctx.reals("x", 1, (-1.0, 1.0))
+    st = {"t": ctx.real("t_current", (-1.0, 1.0)), "post": []}
+
+    class M(GenericModel):
+        def setup(self_): pass
+        def getCurrentX(self_): return st["t"], [x0]
+        def getdXdt(self_, t, x): return [x[0] * 0.0]
+        def getDt(self_, dXdt): return sims[0] * 100.0 + sims[1] * 100.0      # proposes far more than any allowed step
+        def postProcess(self_, t, x): st["post"].append(t); st["t"] = t; return x, False
+    m = M()
+    for k in range(2):
+        t0 = st["t"]; n0 = len(st["post"])
+        m.solve(sims[k], solverType=KIND[kind], maxDtFrac=fr[k])
+        steps = st["post"][n0:]
+        prev = t0
+        for tt in steps:
+            ctx.prove("call %d: no step exceeds this call's maxDtFrac * simTime" % (k + 1), ctx.le(tt - prev, fr[k] * sims[k]))
+            prev = tt
+        ctx.prove("call %d: the run ends exactly at its own end time" % (k + 1), ctx.eq(st["post"][-1], t0 + sims[k]))
+
+
 def _mk_layout(ctx, layout, tag):
     X = []
     for i, sz in enumerate(layout):
@@ -269,6 +297,8 @@ HARNESSES = [
                     "thorough": [{"kind": "rk4", "nmax": 3}, {"kind": "euler", "nmax": 4}]}),
     Harness("C05.entry", entry, functions=_F, assumptions=["real arithmetic"],
             params={"quick": [{"kind": "euler"}, {"kind": "rk4"}], "thorough": [{"kind": "euler"}, {"kind": "rk4"}]}),
+    Harness("C05.entry_twice", entry_twice, functions=_F, assumptions=["real arithmetic", "0.3 <= maxDtFrac <= 1 (at most 4 steps per call)", "the model proposes more than any allowed step"],
+            bounds={"solve calls": 2}, params={"quick": [{"kind": "euler"}], "thorough": [{"kind": "euler"}, {"kind": "rk4"}]}),
     Harness("C05.layout", layout, functions=_F, bounds={"layouts": "<= 3 entries, each a scalar or a 1-D array of length <= 3 (enumerated)"},
             params={"quick": [{"lay": list(l)} for l in _lays[::5]], "thorough": [{"lay": list(l)} for l in _lays]}),
     Harness("C05.coupler", coupler, functions=_F, bounds={"models": 2, "layouts": "as listed"},
